@@ -13,7 +13,10 @@ from vf.unit import eq, holds
 M_, HA_, EE_, TRE_, AFE_ = 0, 17, 25, 28, 29
 
 
-def mk_sd(ispriv, iswrite, n_fixed=None, remap='sym', arch=7, sec=True, ee_sym=True, ttbr_mask=0xFFFFFFFF):
+def mk_sd(ispriv, iswrite, n_fixed=None, remap='sym', arch=7, sec=True, ee_sym=True, ttbr_mask=0xFFFFFFFF,
+          l1type=None, l2type=None):
+    """l1type / l2type: case split on the type bits [1:0] of the first / second level descriptor the walk reads (the
+    cases together are all descriptors; they run as separate units in parallel)"""
     def fn(env):
         from armulator.armv6.arm_exceptions import DataAbortException
         from armulator.armv6.memory_attributes import MemType
@@ -32,6 +35,10 @@ def mk_sd(ispriv, iswrite, n_fixed=None, remap='sym', arch=7, sec=True, ee_sym=T
         o = vmsa.translate_v_sd(m.pre, VA, z3.BoolVal(ispriv), z3.BoolVal(iswrite))
         env.assume(z3.Not(o['unpred']))
         env.assume(z3.Not(o['hw_af_update']))
+        if l1type is not None:
+            env.assume(o['l1type'] == l1type)
+        if l2type is not None:
+            env.assume(o['l2type'] == l2type)
         a = o['attrs']
         # TEX-remap corner cases outside the claim: reserved TRn = 11, IMPLEMENTATION DEFINED region 6
         env.assume(z3.Implies(z3.Not(o['fault']), z3.And(z3.Not(a['unpred']), z3.Not(a['impdef']))))
@@ -93,6 +100,20 @@ def mk_off(arch=7):
 INJECTIVE = [0x55048A29 | (1 << 19), 0xE4D8936C]
 
 
+def split_sd(name, kw, **us_kw):
+    """one unit per first-level descriptor type (fault / page table / section / reserved-or-PXN section); the page
+    table case again per second-level type (fault / large / small, small-XN)"""
+    out = []
+    for t1 in range(4):
+        if t1 == 1:
+            for t2 in range(4):
+                out.append(UnitSpec('%s/l1=page-table/l2=%d' % (name, t2), 'vf.c15', 'mk_sd',
+                                    dict(kw, l1type=1, l2type=t2), **us_kw))
+        else:
+            out.append(UnitSpec('%s/l1=%d' % (name, t1), 'vf.c15', 'mk_sd', dict(kw, l1type=t1), **us_kw))
+    return out
+
+
 def units(tier, seed=0):
     us = []
     for ispriv in (False, True):
@@ -100,22 +121,20 @@ def units(tier, seed=0):
             tag = '%s/%s' % ('priv' if ispriv else 'user', 'w' if iswrite else 'r')
             if tier == 'quick':
                 for n in ((0, 2) if (not ispriv and iswrite) else (0,)):
-                    us.append(UnitSpec('sd_walk/N%d/%s' % (n, tag), 'vf.c15', 'mk_sd',
-                                       dict(ispriv=ispriv, iswrite=iswrite, n_fixed=n, remap=INJECTIVE, ee_sym=False,
-                                            ttbr_mask=0xFFFFFF80),
-                                       max_paths=500000, max_seconds=3000, weight=10))
+                    us += split_sd('sd_walk/N%d/%s' % (n, tag),
+                                   dict(ispriv=ispriv, iswrite=iswrite, n_fixed=n, remap=INJECTIVE, ee_sym=False,
+                                        ttbr_mask=0xFFFFFF80), max_paths=500000, max_seconds=3000, weight=10)
             else:
                 for n in (0, 1, 2, 7):
-                    us.append(UnitSpec('sd_walk/N%d/ee-sym/%s' % (n, tag), 'vf.c15', 'mk_sd',
-                                       dict(ispriv=ispriv, iswrite=iswrite, n_fixed=n, remap=INJECTIVE, ee_sym=True,
-                                            ttbr_mask=0xFFFFFF80), max_paths=2000000, max_seconds=7000, weight=20))
-                us.append(UnitSpec('sd_walk/N0/remap-sym/%s' % tag, 'vf.c15', 'mk_sd',
-                                   dict(ispriv=ispriv, iswrite=iswrite, n_fixed=0, remap='sym', ee_sym=False,
-                                        ttbr_mask=0xFFFFFF80), max_paths=2000000, max_seconds=10000, weight=50))
-                us.append(UnitSpec('sd_walk/nosec/N1/%s' % tag, 'vf.c15', 'mk_sd',
-                                   dict(ispriv=ispriv, iswrite=iswrite, n_fixed=1, remap=INJECTIVE, sec=False,
-                                        ee_sym=False, ttbr_mask=0xFFFFFF80),
-                                   max_paths=500000, max_seconds=5000, weight=10))
+                    us += split_sd('sd_walk/N%d/ee-sym/%s' % (n, tag),
+                                   dict(ispriv=ispriv, iswrite=iswrite, n_fixed=n, remap=INJECTIVE, ee_sym=True,
+                                        ttbr_mask=0xFFFFFF80), max_paths=2000000, max_seconds=7000, weight=20)
+                us += split_sd('sd_walk/N0/remap-sym/%s' % tag,
+                               dict(ispriv=ispriv, iswrite=iswrite, n_fixed=0, remap='sym', ee_sym=False,
+                                    ttbr_mask=0xFFFFFF80), max_paths=2000000, max_seconds=10000, weight=50)
+                us += split_sd('sd_walk/nosec/N1/%s' % tag,
+                               dict(ispriv=ispriv, iswrite=iswrite, n_fixed=1, remap=INJECTIVE, sec=False,
+                                    ee_sym=False, ttbr_mask=0xFFFFFF80), max_paths=500000, max_seconds=5000, weight=10)
     us.append(UnitSpec('mmu_off', 'vf.c15', 'mk_off', {}))
     return us
 
